@@ -250,7 +250,7 @@ NONE_TABLE = [
 # (function qual regex, denominator text regex) -> reason (contract / positive-by-construction)
 DIV_TABLE = [
     (r"^distributor\.Distributor\.algorithm_simple$", r"^numLayers$", "algorithm_simple runs only when needToSplit(): estimateRequiredLayers() > 1 (C04.DISTRIBUTE)"),
-    (r"^distributor\.Distributor\.estimateRequiredLayers$", r"^self\.maxWidthPerLayer\(\)$", "guarded by `if layerWidth` and density > 0 (documented)"),
+    (r"^distributor\.Distributor\.estimateRequiredLayers$", r"^self\.maxWidthPerLayer\(\)$", "guarded by `if layerWidth` and density > 0 (documented)", "self.options['layerWidth']"),
     (r"^scale\.TimeScale\.tickMethod$", r"^count$", "documented contract: tick count >= 1"),
     (r"^scale\.TimeScale\.tickMethod$", r"^target$", "reached only with i >= 1 (the `not i` branch returns first), i.e. target >= steps[0] > 0 (C16.CHOICE)"),
     (r"^scale\.TimeScale\.tickMethod$", r"^d3_time_scaleSteps\[i - 1\]$", "table constants are positive (C16.TABLES)"),
@@ -416,8 +416,15 @@ def divzero_sites(ctx, R, rule_id, reach):
             while top.parent is not None:
                 top = top.parent
             dtexts = {ntext(den), resolve_local(f, den), resolve_local(top, den)}
-            for fr, dr, reason in DIV_TABLE:
+            for ent in DIV_TABLE:
+                fr, dr, reason = ent[:3]
                 if re.search(fr, q) and any(re.search(dr, dt_) for dt_ in dtexts):
+                    if len(ent) > 3:
+                        # the reason names a guard: it must dominate the division
+                        gd = _nonzero_guard(ctx, f, nd, _reparse(ent[3]))
+                        if not gd:
+                            continue
+                        reason = reason + "; " + gd
                     hit = reason
                     break
             if hit:
@@ -748,6 +755,42 @@ def optkeys(ctx, R):
                         else:
                             break
                     R.check(ok, "C11.OPTKEYS", "%s|options%s" % (q, "".join("[%r]" % p_ for p_ in path)), where(f, nd), "key exists in DEFAULT_OPTIONS", "`%s` reads option %s, which %s.DEFAULT_OPTIONS does not define: KeyError when the caller omits it" % (ntext(nd)[:50], path, modname), nontrivial=False)
+    # removeOverlap reads its caller's dict: either through the merge over its own defaults, or only keys the engine always passes
+    import re as _re
+    from . import qp
+    FM = qp.force_model(ctx)
+    passed = set()
+    for e in FM.st.events:
+        for b in [e] + list(qp._flat_events(e[3]) if e[0] == "loop" else []):
+            if b[0] == "mark" and b[1] == "removeOverlap" and len(b[3]) > 1 and isinstance(b[3][1], DictV):
+                passed = set(b[3][1].items)
+    fdv = FM.force_defaults
+    guaranteed = passed & (set(fdv.items) if isinstance(fdv, DictV) else set())
+    ro = P.func(qp.RO)
+    for cfgk, M in sorted(qp.models(ctx).items()):
+        txt = []
+
+        def dump(x):
+            if isinstance(x, (list, tuple)):
+                for y in x:
+                    dump(y)
+            elif isinstance(x, dict):
+                for y in x.values():
+                    dump(y)
+            elif type(x).__module__.startswith("sa."):
+                try:
+                    txt.append(key(x))
+                except Exception:
+                    pass
+
+        dump(M.events)
+        dump([M.chain or {}, M.walls, M.target, M.ret])
+        raw = set(_re.findall(r"(?<!override\()options\['(\w+)'\]", "\n".join(txt)))
+        tested = set(_re.findall(r"in\('(\w+)', options\)", "\n".join(txt)))
+        for k_ in sorted(raw):
+            n += 1
+            R.check(k_ in guaranteed or k_ in tested, "C11.OPTKEYS", "removeOverlap|options[%r] (minPos %s, maxPos %s)" % (k_, "absent" if cfgk[0] else "present", "absent" if cfgk[1] else "present"), where(ro), "key guaranteed by the engine or merged from the defaults",
+                    "removeOverlap reads options[%r] straight from the caller's dict; the engine passes only %s and the key is not merged from removeOverlap.DEFAULT_OPTIONS: KeyError" % (k_, sorted(guaranteed)), nontrivial=False)
     R.check(n >= 40, "C11.OPTKEYS.inventory", "constant option keys examined: %d" % n, "", "", "fewer option reads than expected", nontrivial=False)
     # Timeline.__init__ builds options from the defaults, latex options merged key-wise
     f = P.func("timeline.Timeline.__init__")
